@@ -27,6 +27,9 @@ RULE = (
     "plain files, or a real earlier checkout with a drawn link type) followed by drawn user edits "
     "(modify = unlink+create, delete, add, file->directory, directory->file at any depth including "
     "the whole root of a tree target replaced by a plain cached/uncached file, empty directory), "
+    "0-2 dangling symlinks at target / extra paths (also workspace symlinks whose cache object was "
+    "dropped), an optional pre-step that hashes the workspace through the same State for a legacy "
+    "md5-dos2unix store with LF/CRLF twin contents (one cached, one an uncached edit), "
     "optionally target objects dropped from the cache, configured link types, relink on/off, state "
     "on/off and prompt None / always-decline (plus a small accepting arm that only checks that no "
     "PromptError is raised), force=False. Oracle: byte snapshots of the workspace before/after; every "
@@ -57,6 +60,10 @@ ASSUMPTIONS = [
     "replaced with its mtime kept and its (inode, mtime) equals the record-time pair again (inode number "
     "recycled by ext4, or the original inode deliberately brought back) the change is token-preserving "
     "and the entry counts as unmodified (class inode-recycled-token-preserved)",
+    "a dangling symlink, and a workspace symlink that points into the cache directory, hold no bytes of "
+    "their own: replacing/removing them is always allowed; while the workspace holds a dangling symlink "
+    "(it cannot be staged) only a conflicting file at a target path must be refused - extra files are "
+    "left alone by the code - and a bare OSError (file/directory in the way) counts as a refusal",
     "hashlib and os.walk are the trusted reference",
 ]
 
